@@ -376,11 +376,26 @@ def flags_int(flags):
     return v
 
 
+class _Log(list):
+    def __init__(self, owner):
+        list.__init__(self)
+        self.owner = owner
+
+    def append(self, x):
+        list.append(self, x)
+        if self.owner.observe:
+            k = self.owner.k
+            bytes(k), str(k), bytes(k.pubkey), str(k.fingerprint), [str(s.fingerprint) for s in k.subkeys.values()], bytes(copy.copy(k))
+
+
 class Build(object):
     """Drives the pgpy key-management API and records, independently of pgpy's containers, which signature was
     attached to which component, with which parameters and in which order."""
 
-    def __init__(self, alg, created=T0, other_alg='ed25519', slot=0):
+    def __init__(self, alg, created=T0, other_alg='ed25519', slot=0, observe=False):
+        # observe: after every operation the key is LOOKED AT (binary and armored export of the key and of its public twin, fingerprint,
+        # a copy) - observations that must leave no trace in what later operations and exports yield
+        self.observe = observe
         self.alg = alg
         self.k = new_key(alg, created, slot=slot)
         self.created = self.k.created
@@ -392,7 +407,7 @@ class Build(object):
         self.pw = None
         self.seq = 0
         self.n_ua = 0
-        self.log = []
+        self.log = _Log(self)
 
     # -- helpers
     def _rec(self, sig, self_issued, **params):
@@ -542,7 +557,8 @@ class Build(object):
         self.log.append(('direct', by, exportable))
 
     def revoker(self, t):
-        sig = self.unlocked(lambda: self.k.revoker(self.other, created=t))
+        # every other designated revoker is marked sensitive (class octet 0xC0): still an exportable signature (it carries no 'not exportable' mark)
+        sig = self.unlocked(lambda: self.k.revoker(self.other, created=t, sensitive=bool(self.seq % 2 == 0)))
         self.k |= sig
         self.direct.append(self._rec(sig, True))
         self.log.append(('revoker',))
@@ -660,7 +676,7 @@ def shape_steps(desc):
 
 def build_shape(desc):
     alg = desc[0]
-    b = Build(alg, T0, other_alg='p256' if desc[6] % 3 == 1 else 'ed25519')
+    b = Build(alg, T0, other_alg='p256' if desc[6] % 3 == 1 else 'ed25519', observe=bool(desc[6] % 2))
     subs = []
     dt = lambda s: T0 + datetime.timedelta(seconds=s)
     for st in shape_steps(desc):
